@@ -34,6 +34,12 @@ func dispSpec(withInit bool) kit.Spec {
 		{ID: 10, Life: "singleton", Err: true, Outs: []kit.Out{{T: "D2"}}, As: []string{"IA", "IB"}, Name: "ks"},
 		{ID: 11, Life: "scoped", Err: true, Outs: []kit.Out{{T: "D3"}}, As: []string{"IA", "IB"}, Name: "kc"},
 		{ID: 12, Life: "transient", Err: true, Outs: []kit.Out{{T: "D4"}}, As: []string{"IA", "IB"}, Name: "kt"},
+		// a disposable singleton registered as a ready-made VALUE, received by a constructor-built disposable singleton
+		{ID: 13, Life: "singleton", Kind: "instance", Outs: []kit.Out{{T: "D0"}}, Name: "iv"},
+		{ID: 14, Life: "singleton", In: true, Err: true, Outs: []kit.Out{{T: "D1"}}, Name: "ivc", Deps: []kit.Dep{{T: "D0", Key: "iv"}, {T: "D1"}}},
+		// an interface-typed scoped service whose dynamic type is plain on its first construction and disposable afterwards
+		{ID: 15, Life: "scoped", Err: true, Outs: []kit.Out{{T: "IA", Conc: "P0", Alt: "D5", AltFrom: 2}}, Name: "dyn"},
+		{ID: 16, Life: "transient", Err: true, Outs: []kit.Out{{T: "IB", Conc: "P1", Alt: "D5", AltFrom: 2}}, Name: "dyn"},
 	}}
 	if withInit {
 		s.Regs = append(s.Regs,
@@ -46,6 +52,9 @@ func dispSpec(withInit bool) kit.Spec {
 var dispProbes = []Op{{Kind: "get", T: "D2"}, {Kind: "get", T: "D3"}, {Kind: "get", T: "D5"}, {Kind: "get", T: "IB"}, {Kind: "get", T: "IA"}, {Kind: "get", T: "D1"}}
 
 // aliased disposables: one instance reachable under two interface identities
+// services whose disposability differs between invocations
+var dispDynProbes = []Op{{Kind: "get", T: "IA", Key: "dyn"}, {Kind: "get", T: "IB", Key: "dyn"}, {Kind: "get", T: "D2"}}
+
 var dispAliasProbes = []Op{{Kind: "get", T: "IA", Key: "kc"}, {Kind: "get", T: "IB", Key: "kc"}, {Kind: "get", T: "IA", Key: "kt"}, {Kind: "get", T: "IB", Key: "kt"}, {Kind: "get", T: "IB", Key: "ks"}, {Kind: "get", T: "D2"}}
 
 func dispFilter(prop string, fs []Finding) []Finding {
@@ -93,6 +102,7 @@ func dispHistCfgs(prop, tier string) []*histCfg {
 	out = append(out,
 		&histCfg{Name: prop + "-hist/plain", Spec: dispSpec(false), Probes: dispProbes, MaxScopes: 3, Depth: depth, CtxKinds: []string{"cancel"}, Final: dispFinal, Oracle: dispOracle(prop)},
 		&histCfg{Name: prop + "-hist/aliased", Spec: dispSpec(false), Probes: dispAliasProbes, MaxScopes: 2, Depth: depth, CtxKinds: []string{""}, Final: dispFinal, Oracle: dispOracle(prop)},
+		&histCfg{Name: prop + "-hist/dynamic-type", Spec: dispSpec(false), Probes: dispDynProbes, MaxScopes: 3, Depth: depth, CtxKinds: []string{""}, NoProvOps: true, Final: dispFinal, Oracle: dispOracle(prop)},
 		&histCfg{Name: prop + "-hist/init", Spec: dispSpec(true), Probes: dispProbes[:4], MaxScopes: 3, Depth: depth - 1, CtxKinds: []string{""}, Final: dispFinal, Oracle: dispOracle(prop)},
 	)
 	// scope churn: many children under one parent, created and closed in every order
@@ -124,9 +134,12 @@ func dispHistCfgs(prop, tier string) []*histCfg {
 		fd := depth - 2
 		for _, reg := range []int{0, 1, 2, 3, 4, 5, 6, 7, 8, 9} {
 			for serial := 1; serial <= 3; serial++ {
-				for _, kind := range []string{"err", "panic:string"} {
+				for _, kind := range []string{"err", "panic:string", "err:disposed"} {
 					if (reg == 0 || reg == 1 || reg == 6) && serial > 1 {
 						continue // singletons are constructed once
+					}
+					if kind == "err:disposed" && reg != 5 && reg != 7 && reg != 2 {
+						continue // an error wrapping ANOTHER scope's disposed sentinel: initializers and one scoped service
 					}
 					if tier != "thorough" && serial == 3 {
 						continue
@@ -198,11 +211,11 @@ func registerDisp(prop, rule string) {
 }
 
 func init() {
-	registerDisp("C10", "histories: every sequence to depth 5 (quick) / 6 (thorough) over {CreateScope(provider|scope), resolutions of scoped / transient / second output of a two-output constructor / disposables registered under interface types without Close (alias, interface-typed return) / singleton, Close(scope|provider), cancel} on <=3 scopes of an all-disposable container (with and without scope initializers), completed by closing the provider; multi-output constructors (result object / multiple returns; scoped, transient, singleton) whose second output is nil on the first invocation, so that a later request re-runs the constructor and re-creates the first output; fault positions: every constructor x invocation 1..2(3) x {returns error, panics} during Build, scope creation and resolution, over every history to depth 3/4; schedules: Resolve||Close(scope), Resolve||cancel, Resolve||Close(provider), CreateScope-with-initializers||Close, all schedules with <=2/3 preemptions. two providers built from one collection: every history to depth 4 (5) over {use p1, use p2, close p1, close p2} - closing one provider closes exactly what it owns, once. Oracle at the end of every execution: every container-created disposable closed exactly once, not before a Close/cancel of its owner, an ancestor or the provider started (or the creation that made it failed); non-disposables untouched. An outcome is the canonical observation string of one execution.")
+	registerDisp("C10", "histories: every sequence to depth 5 (quick) / 6 (thorough) over {CreateScope(provider|scope), resolutions of scoped / transient / second output of a two-output constructor / disposables registered under interface types without Close (alias, interface-typed return) / singleton, Close(scope|provider), cancel} on <=3 scopes of an all-disposable container (with and without scope initializers), completed by closing the provider; multi-output constructors (result object / multiple returns; scoped, transient, singleton) whose second output is nil on the first invocation, so that a later request re-runs the constructor and re-creates the first output; fault positions: every constructor x invocation 1..2(3) x {returns error, panics, returns an error that wraps the disposed sentinel of some other scope} during Build, scope creation and resolution, over every history to depth 3/4; schedules: Resolve||Close(scope), Resolve||cancel, Resolve||Close(provider), CreateScope-with-initializers||Close, all schedules with <=2/3 preemptions. two providers built from one collection: every history to depth 4 (5) over {use p1, use p2, close p1, close p2} - closing one provider closes exactly what it owns, once. Oracle at the end of every execution: every container-created disposable closed exactly once, not before a Close/cancel of its owner, an ancestor or the provider started (or the creation that made it failed); non-disposables untouched. An outcome is the canonical observation string of one execution.")
 	registerDisp("C11", "same histories as C10 without faults; oracle on the global stamp sequence: within one owner (each scope; the singleton set) close order is exactly reverse creation order; every close in a descendant scope precedes every own-instance close of its ancestor; every scope-owned close (root scope included) precedes every singleton close; no disposable is closed while a still-open established disposable that received it exists. The property quantifies over configurations and histories; beyond it, the last clause (the stated consequence) is also checked on every schedule (bound 2/3) of the C10 overlap scenarios Resolve||Close(scope|provider), Resolve||cancel, CreateScope-with-initializers||Close, where 'established' means that the operation which constructed the instance completed successfully, or a completed operation handed it out - late arrivals the container refuses and disposes itself are not ordered.")
 	mc.Register(&mc.Check{
 		Prop: "C12", MinOutcomes: 10,
-		Rule:   "fault sequences: a tree of 4 scopes (provider > s1 > {s2, s3}) owning up to 8 disposables (2 singletons, scoped + transient per scope; every subset of the 6 resolutions performed, so that scopes owning nothing occur): every subset (all 256 when everything is resolved, all subsets for <=4 scope-owned instances, singles and pairs otherwise) of the Close methods failing x every node closed first, then the same node again, then the provider twice; schedules: 2 and 3 concurrent Close on one scope, Close || cancel, Close(child) || Close(parent) || Close(provider), bound 2/3, with failing instances. Oracle: every owned instance attempted exactly once; the first Close returns a DisposalError iff a failing instance is in its subtree, every injected error is reachable from exactly one returned error (none for closes done by the cancellation watcher), repeated / losing Closes return nil.",
+		Rule:   "fault sequences: a tree of 4 scopes (provider > s1 > {s2, s3}) owning up to 8 disposables (2 singletons, an aliased singleton, an interface-typed scoped service that is plain in one scope and disposable in the next, scoped + transient per scope; every subset of the 6 resolutions performed, so that scopes owning nothing occur): every subset (all 256 when everything is resolved, all subsets for <=4 scope-owned instances, singles and pairs otherwise) of the Close methods failing x every node closed first, then the same node again, then the provider twice; schedules: 2 and 3 concurrent Close on one scope, Close || cancel, Close(child) || Close(parent) || Close(provider), bound 2/3, with failing instances. Oracle: every owned instance attempted exactly once; the first Close returns a DisposalError iff a failing instance is in its subtree, every injected error is reachable from exactly one returned error (none for closes done by the cancellation watcher), repeated / losing Closes return nil.",
 		Assume: []string{"DisposalError.Errors is descended recursively together with errors.Unwrap"},
 		Jobs:   c12Jobs,
 	})
@@ -218,6 +231,8 @@ func c12Spec() kit.Spec {
 		{ID: 3, Life: "transient", Outs: []kit.Out{{T: "D3"}}, Deps: []kit.Dep{{T: "D0"}}},
 		// one disposable singleton behind two interface aliases
 		{ID: 4, Life: "singleton", Outs: []kit.Out{{T: "D4"}}, As: []string{"IA", "IB"}},
+		// an interface-typed scoped service: plain on its first construction (in s1), disposable from the second on (s2)
+		{ID: 5, Life: "scoped", Outs: []kit.Out{{T: "IA", Conc: "P0", Alt: "D5", AltFrom: 2}}, Name: "dyn"},
 	}}
 }
 
@@ -254,8 +269,8 @@ var c12Labels = []string{"r4#1.0", "r0#1.0", "r1#1.0", "r2#1.0", "r3#1.0", "r2#2
 
 func c12Setup() []Op {
 	return []Op{
-		{Kind: "scope", Bind: "s1", Ctx: "cancel"}, {Kind: "get", Scope: "s1", T: "D2"}, {Kind: "get", Scope: "s1", T: "D3"},
-		{Kind: "scope", Scope: "s1", Bind: "s2"}, {Kind: "get", Scope: "s2", T: "D2"}, {Kind: "get", Scope: "s2", T: "D3"},
+		{Kind: "scope", Bind: "s1", Ctx: "cancel"}, {Kind: "get", Scope: "s1", T: "IA", Key: "dyn"}, {Kind: "get", Scope: "s1", T: "D2"}, {Kind: "get", Scope: "s1", T: "D3"},
+		{Kind: "scope", Scope: "s1", Bind: "s2"}, {Kind: "get", Scope: "s2", T: "IA", Key: "dyn"}, {Kind: "get", Scope: "s2", T: "D2"}, {Kind: "get", Scope: "s2", T: "D3"},
 		{Kind: "scope", Scope: "s1", Bind: "s3"}, {Kind: "get", Scope: "s3", T: "D2"}, {Kind: "get", Scope: "s3", T: "D3"},
 	}
 }
@@ -399,7 +414,7 @@ func c12Seq(r *mc.Report, firsts []string) {
 			}
 			gi := 0
 			for _, op := range c12Setup() {
-				if op.Kind == "get" {
+				if op.Kind == "get" && op.T != "IA" {
 					skip := c.Skip&(1<<gi) != 0
 					gi++
 					if skip {
@@ -472,7 +487,7 @@ func c12Seq(r *mc.Report, firsts []string) {
 	for _, first := range firsts {
 		for skip := 0; skip < 64; skip++ {
 			// labels of the instances that exist under this skip mask: serials are assigned in creation order
-			labels := []string{"r0#1.0", "r1#1.0", "r4#1.0"}
+			labels := []string{"r0#1.0", "r1#1.0", "r4#1.0", "r5#2.0"}
 			n2, n3 := 0, 0
 			for gi := 0; gi < 6; gi++ {
 				if skip&(1<<gi) != 0 {
@@ -486,7 +501,7 @@ func c12Seq(r *mc.Report, firsts []string) {
 					labels = append(labels, fmt.Sprintf("r3#%d.0", n3))
 				}
 			}
-			if skip != 0 && len(labels) > 7 {
+			if skip != 0 && len(labels) > 8 {
 				// with few skipped resolutions use single and pair failures only (the full subsets are covered by skip=0)
 				for i := range labels {
 					run(c12Case{Fail: []string{labels[i]}, First: first, Skip: skip})
